@@ -524,6 +524,16 @@ func genHistory(r *rand.Rand, p Profile) *History {
 			}
 			g.encodeParamsOnly(nf)
 			f.Reenter = nf.ID + 1
+			if g.coin(0.3) {
+				// registration from inside user code: a fresh constructor for some key
+				nf.Params = g.randParams(g.r.Intn(2), op.Scope, -1)
+				nf.Results = g.randResults(1, true)
+				if len(nf.Results) == 0 {
+					nf.Results = []Res{{K: g.randSingleKey()}}
+				}
+				nf.PEnc, nf.REnc = nil, nil
+				f.ReenterProvide = true
+			}
 		}
 	}
 	g.r.Shuffle(len(regOps), func(i, j int) { regOps[i], regOps[j] = regOps[j], regOps[i] })
